@@ -209,6 +209,17 @@ func runC15(c *Ctx) {
 			}
 			addIn(wire, rows)
 		}
+		// inputs larger than the reader's buffer (128 KiB) and larger than several of them: a codec that works through the
+		// column in pieces must treat every piece alike
+		for _, rows := range []int{131072/cd.w + 1, 3*131072/cd.w + 5} {
+			wire := r.Bytes(rows * cd.w)
+			if cd.name == "Bool" {
+				for j := range wire {
+					wire[j] &= 1
+				}
+			}
+			addIn(wire, rows)
+		}
 		// short input
 		addIn(r.Bytes(cd.w*3-1), 3)
 		for k, wire := range inputs {
